@@ -20,7 +20,7 @@ claim('C05', 'finite-domain verdict evaluation over the CFG (accepting-set), rea
 claim('C06', 'interprocedural exception-escape analysis with handler filtering and nullable-field narrowing; CFG ordering/dataflow for framing; decision-table comparison',
       'Computes, over every call path from both NDNApp._receive entries and the datagram callbacks (61+ functions, all internal '
       'calls resolved or the run fails closed), the set of exception classes that can leave them and requires it to be empty; '
-      'requires the signature verifiers of the library to answer (not raise) for a packet without SignatureValue; checks the stream loop catches end-of-stream, shuts down and delivers nothing, the framing dataflow (fresh buffer, T, L, '
+      'requires the signature verifiers of the library to answer (not raise) for a packet without SignatureValue or with a key of another kind than its signature type; checks the stream loop catches end-of-stream, shuts down and delivers nothing, the framing dataflow (fresh buffer, T, L, '
       'readexactly(L), one task with (T, whole buffer)), byte-echo pairing in read_tl_num_from_stream and equality of its width '
       'table with parse_tl_num. Does not execute packets; "unrelated Interests unaffected" is covered only through C03 bookkeeping.',
       'user callbacks and tabled library calls do not raise; asserts are invariants; exception hierarchy table; CancelledError legitimate')
